@@ -18,6 +18,10 @@ class Unsupported(Exception):
     pass
 
 
+class OutOfRange(Exception):
+    """a load from an input argument beyond its extent (definite defect of the analysed code: it reads outside the object it was given)"""
+
+
 class Narrowing(Exception):
     """a value is converted to a narrower floating-point type inside the witness (definite precision loss, not an abstraction limit)"""
 
